@@ -234,6 +234,40 @@ pub fn corrupt(rng: &mut Rng, cfg: PCfg, doc: &Doc) -> Option<Corruption> {
                     what: format!("invalid UTF-8 byte inserted into symbol name at name offset {}", at),
                 });
             }
+            // AIGER comment section: invalid UTF-8 byte on any of its lines, or missing final newline
+            (Role::Comment, _) if pk.is_aiger() && t.what == "comment" => {
+                let c = std::str::from_utf8(text).ok()?;
+                if rng.chance(1, 2) {
+                    let bounds: Vec<usize> = c.char_indices().map(|(i, _)| i).chain(std::iter::once(c.len())).collect();
+                    let at = bounds[rng.usize(bounds.len())];
+                    let mut new = text.to_vec();
+                    new.insert(at, 0xff);
+                    let nl = text[..at].iter().filter(|&&b| b == b'\n').count();
+                    let line_start = text[..at].iter().rposition(|&b| b == b'\n').map_or(0, |p| p + 1);
+                    return Some(Corruption {
+                        bytes: splice(doc, t, &new),
+                        line: t.line + nl,
+                        col_lo: at - line_start + 1,
+                        col_hi: at - line_start + 1,
+                        what: format!("invalid UTF-8 byte inserted into the comment section at comment offset {} (comment line {})", at, nl + 1),
+                    });
+                } else {
+                    // drop the final newline of the file (the comment must then be non-empty and not end in a newline)
+                    if text.is_empty() || text.last() == Some(&b'\n') || t.off + t.len + 1 != doc.bytes.len() {
+                        continue;
+                    }
+                    let nl = text.iter().filter(|&&b| b == b'\n').count();
+                    let line_start = text.iter().rposition(|&b| b == b'\n').map_or(0, |p| p + 1);
+                    let col = text.len() - line_start + 1;
+                    return Some(Corruption {
+                        bytes: doc.bytes[..doc.bytes.len() - 1].to_vec(),
+                        line: t.line + nl,
+                        col_lo: col,
+                        col_hi: col,
+                        what: format!("final newline of the comment section removed (comment has {} lines)", nl + 1),
+                    });
+                }
+            }
             // binary delta larger than its reference
             (Role::Binary, _) if t.what == "delta0" => {
                                 // 2^64-1 in ten 7-bit groups: larger than every possible gate code
